@@ -1,4 +1,4 @@
-import JanetModel.Bytecode.VM
+import JanetModel.Bytecode.VMCore
 import JanetModel.Gen.Cfuns
 
 /-!
@@ -119,6 +119,320 @@ theorem removeNoops_get (code : List Instr) (i : Nat) (h : i < code.length) (hn 
   rw [hsplit]
   unfold pcMap
   rw [List.getElem?_append_right (Nat.le_refl _)]
+  simp only [Nat.sub_self]
+  rw [List.drop_eq_getElem_cons h, List.filter_cons]
+  simp [hn]
+
+/-! ### `janet_bytecode_remove_noops` preserves behaviour -/
+
+/-- over any sublist boundary: `pc_map` contracts distances -/
+theorem pcMap_sub_le (code : List Instr) (a b : Nat) (h : a ≤ b) : pcMap code b - pcMap code a ≤ b - a := by
+  unfold pcMap
+  have hsplit : code.take b = code.take a ++ (code.take b).drop a := by
+    have : code.take a = (code.take b).take a := by rw [List.take_take]; congr 1; omega
+    rw [this, List.take_append_drop]
+  rw [hsplit, List.filter_append, List.length_append]
+  have h1 : ((List.drop a (List.take b code)).filter fun x => x.op != Op.noop).length ≤ (List.drop a (List.take b code)).length :=
+    List.length_filter_le _ _
+  have h2 : (List.drop a (List.take b code)).length ≤ b - a := by simp [List.length_drop, List.length_take]; omega
+  omega
+
+/-- the instruction the pass writes for the kept instruction `x` of old index `i` (`instr += delta << 8 / 16` on the uint32 word) -/
+def retarget (code : List Instr) (i : Nat) (x : Instr) : Instr :=
+  if isJumpD x.op then ⟨x.op, ((newOffset code i x.DS) % 16777216).toNat⟩
+  else if isJumpE x.op then ⟨x.op, x.A + 256 * ((newOffset code i x.ES) % 65536).toNat⟩
+  else x
+
+/-- second loop of the C function: drop noops, rewrite jumps; `i` = old index of the head of the remaining suffix -/
+def rewriteFrom (code : List Instr) : Nat → List Instr → List Instr
+  | _, [] => []
+  | i, x :: xs => if x.op != .noop then retarget code i x :: rewriteFrom code (i + 1) xs else rewriteFrom code (i + 1) xs
+
+def removeNoopsFull (code : List Instr) : List Instr := rewriteFrom code 0 code
+
+theorem rewriteFrom_get (code : List Instr) : ∀ (suf : List Instr) (base j : Nat) (h : j < suf.length),
+    ((suf[j]'h).op != .noop) = true →
+    (rewriteFrom code base suf)[((suf.take j).filter (fun x => x.op != .noop)).length]? = some (retarget code (base + j) (suf[j]'h)) := by
+  intro suf
+  induction suf with
+  | nil => intro base j h; simp at h
+  | cons x xs ih =>
+    intro base j h hn
+    cases j with
+    | zero =>
+      simp only [List.getElem_cons_zero] at hn
+      simp [rewriteFrom, hn]
+    | succ j =>
+      have h' : j < xs.length := by simpa using h
+      have hn' : ((xs[j]'h').op != .noop) = true := by simpa using hn
+      have := ih (base + 1) j h' hn'
+      by_cases hx : (x.op != .noop) = true
+      · simp only [rewriteFrom, hx, if_true, List.take_succ_cons, List.filter_cons, List.length_cons, List.getElem?_cons_succ,
+          List.getElem_cons_succ]
+        rw [this]
+        congr 2
+        omega
+      · simp only [rewriteFrom, hx, List.take_succ_cons, List.filter_cons, List.getElem_cons_succ]
+        simp only [Bool.false_eq_true, if_false]
+        rw [this]
+        congr 2
+        omega
+
+theorem removeNoopsFull_get (code : List Instr) (i : Nat) (h : i < code.length) (hn : ((code[i]'h).op != .noop) = true) :
+    (removeNoopsFull code)[pcMap code i]? = some (retarget code i (code[i]'h)) := by
+  have := rewriteFrom_get code code 0 i h hn
+  simpa [removeNoopsFull, pcMap] using this
+
+variable (P : Prims)
+
+/-- a computation that never ends in a jump outcome -/
+def NoJumpM (m : M P (Outcome P)) : Prop := ∀ w o w', m w = (.ok o, w') → ∀ s off, o ≠ .jump s off
+
+theorem noJump_pure_next (s : List P.V) : NoJumpM P (M.pure (.next s)) := by
+  intro w o w' h s' off; simp [M.pure] at h; rw [← h.1]; intro hh; cases hh
+theorem noJump_pure_ret (v : P.V) : NoJumpM P (M.pure (.ret v)) := by
+  intro w o w' h s' off; simp [M.pure] at h; rw [← h.1]; intro hh; cases hh
+theorem noJump_throw (e : P.E) : NoJumpM P (M.throw e) := by
+  intro w o w' h; simp [M.throw] at h
+theorem noJump_bind {α} (m : M P α) (k : α → List P.V) : NoJumpM P (M.bind m fun v => M.pure (.next (k v))) := by
+  intro w o w' h s' off
+  simp only [M.bind, M.pure] at h
+  rcases hm : m w with ⟨(e | v), w1⟩
+  · rw [hm] at h; simp at h
+  · rw [hm] at h
+    simp at h
+    rw [← h.1]
+    intro hh; cases hh
+
+def isJumpOp (op : Op) : Bool := isJumpD op || isJumpE op
+
+/-- only the five jump opcodes produce a jump outcome -/
+theorem stepCore_noJump (x : Instr) (s : List P.V) (hj : isJumpOp x.op = false) (m : M P (Outcome P)) (hm : stepCore P x s = some m) :
+    NoJumpM P m := by
+  cases hop : x.op <;> simp [hop, isJumpOp, isJumpD, isJumpE] at hj <;>
+    simp [stepCore, hop, immBase, Op.itype] at hm <;> subst hm <;>
+    first
+      | exact noJump_pure_next P _
+      | exact noJump_pure_ret P _
+      | exact noJump_throw P _
+      | exact noJump_bind P _ _
+
+/-! field facts -/
+
+theorem signExt24 (i : Int) (hi : -8388608 ≤ i ∧ i < 8388608) : signExt 24 (i % 16777216).toNat = i := by
+  unfold signExt
+  have h7 : (2 : Nat) ^ (24 - 1) = 8388608 := by decide
+  have h8 : (2 : Nat) ^ 24 = 16777216 := by decide
+  rw [h7, h8]
+  split <;> omega
+
+theorem ES_range (x : Instr) : -32768 ≤ x.ES ∧ x.ES < 32768 := by
+  unfold Instr.ES signExt Instr.E
+  have h7 : (2 : Nat) ^ (16 - 1) = 32768 := by decide
+  have h8 : (2 : Nat) ^ 16 = 65536 := by decide
+  rw [h7, h8]
+  split <;> omega
+
+theorem DS_range (x : Instr) : -8388608 ≤ x.DS ∧ x.DS < 8388608 := by
+  unfold Instr.DS signExt Instr.D
+  have h7 : (2 : Nat) ^ (24 - 1) = 8388608 := by decide
+  have h8 : (2 : Nat) ^ 24 = 16777216 := by decide
+  rw [h7, h8]
+  split <;> omega
+
+/-- the rewritten offset is the distance between the images of source and target, and is no larger than the old one -/
+theorem newOffset_eq (code : List Instr) (i : Nat) (off : Int) (h : 0 ≤ (i : Int) + off) :
+    newOffset code i off = (pcMap code ((i : Int) + off).toNat : Int) - (pcMap code i : Int) := by
+  have := remove_noops_retarget code i off
+  omega
+
+theorem newOffset_bound (code : List Instr) (i : Nat) (off : Int) (h : 0 ≤ (i : Int) + off) :
+    (0 ≤ off → 0 ≤ newOffset code i off ∧ newOffset code i off ≤ off) ∧ (off ≤ 0 → off ≤ newOffset code i off ∧ newOffset code i off ≤ 0) := by
+  rw [newOffset_eq code i off h]
+  constructor
+  · intro hp
+    have hle : i ≤ ((i : Int) + off).toNat := by omega
+    have h1 := pcMap_mono code i _ hle
+    have h2 := pcMap_sub_le code i _ hle
+    omega
+  · intro hn
+    have hle : ((i : Int) + off).toNat ≤ i := by omega
+    have h1 := pcMap_mono code _ i hle
+    have h2 := pcMap_sub_le code _ i hle
+    omega
+
+theorem retarget_op (code : List Instr) (i : Nat) (x : Instr) : (retarget code i x).op = x.op := by
+  unfold retarget; split
+  · rfl
+  · split <;> rfl
+
+theorem retarget_nonjump (code : List Instr) (i : Nat) (x : Instr) (h : isJumpOp x.op = false) : retarget code i x = x := by
+  simp only [isJumpOp, Bool.or_eq_false_iff] at h
+  simp [retarget, h.1, h.2]
+
+theorem retarget_DS (code : List Instr) (i : Nat) (x : Instr) (hd : isJumpD x.op = true) (h : 0 ≤ (i : Int) + x.DS) :
+    (retarget code i x).DS = newOffset code i x.DS := by
+  have hb := newOffset_bound code i x.DS h
+  have hr := DS_range x
+  have hrange : -8388608 ≤ newOffset code i x.DS ∧ newOffset code i x.DS < 8388608 := by
+    by_cases hp : 0 ≤ x.DS
+    · have := hb.1 hp; omega
+    · have := hb.2 (by omega); omega
+  simp only [retarget, hd, if_true, Instr.DS, Instr.D]
+  have : ((newOffset code i (signExt 24 (x.bits % 16777216))) % 16777216).toNat % 16777216 =
+      ((newOffset code i (signExt 24 (x.bits % 16777216))) % 16777216).toNat := by omega
+  rw [this]
+  exact signExt24 _ hrange
+
+theorem retarget_E (code : List Instr) (i : Nat) (x : Instr) (hd : isJumpD x.op = false) (he : isJumpE x.op = true) (h : 0 ≤ (i : Int) + x.ES) :
+    (retarget code i x).A = x.A ∧ (retarget code i x).ES = newOffset code i x.ES := by
+  have hb := newOffset_bound code i x.ES h
+  have hr := ES_range x
+  have hrange : -32768 ≤ newOffset code i x.ES ∧ newOffset code i x.ES < 32768 := by
+    by_cases hp : 0 ≤ x.ES
+    · have := hb.1 hp; omega
+    · have := hb.2 (by omega); omega
+  have hA : x.A < 256 := by unfold Instr.A; omega
+  constructor
+  · simp only [retarget, hd, he, if_true, Bool.false_eq_true, if_false, Instr.A]
+    have hA' : x.bits % 256 < 256 := hA
+    omega
+  · have hE : (retarget code i x).E = ((newOffset code i x.ES) % 65536).toNat := by
+      simp only [retarget, hd, he, if_true, Bool.false_eq_true, if_false, Instr.E]
+      omega
+    unfold Instr.ES
+    rw [hE]
+    exact signExt16 _ hrange
+
+/-- well-formed jumps (what `janet_verify` guarantees): every jump lands inside the code or just past its end -/
+def JumpsWf (code : List Instr) : Prop :=
+  ∀ (i : Nat) (x : Instr), code[i]? = some x →
+    (isJumpD x.op = true → 0 ≤ (i : Int) + x.DS) ∧ (isJumpE x.op = true → 0 ≤ (i : Int) + x.ES)
+
+/-- one instruction of the rewritten code simulates the kept instruction it came from: same effects, same slots, and the
+    successor pc is the image under `pc_map` of the original successor pc -/
+theorem retarget_step (code : List Instr) (hwf : JumpsWf code) (i : Nat) (h : i < code.length)
+    (hn : ((code[i]'h).op != .noop) = true) (s : List P.V) (m : M P (Step P)) (hm : step P (code[i]'h) ⟨s, i⟩ = some m) :
+    ∃ m', step P (retarget code i (code[i]'h)) ⟨s, pcMap code i⟩ = some m' ∧
+      ∀ w, match m w with
+        | (.error e, w') => m' w = (.error e, w')
+        | (.ok (.ret v), w') => m' w = (.ok (.ret v), w')
+        | (.ok (.cont g), w') => m' w = (.ok (.cont ⟨g.slots, pcMap code g.pc⟩), w') := by
+  have hget : code[i]? = some (code[i]'h) := List.getElem?_eq_getElem h
+  generalize hx : code[i]'h = x at *
+  have hsucc : pcMap code (i + 1) = pcMap code i + 1 := by
+    rw [pcMap_succ code i h, hx]; simp [hn]
+  rw [step_core] at hm ⊢
+  simp only [Option.map_eq_some_iff] at hm
+  obtain ⟨mc, hmc, rfl⟩ := hm
+  by_cases hj : isJumpOp x.op = true
+  · -- a jump: same test, offset rewritten
+    simp only [isJumpOp, Bool.or_eq_true] at hj
+    by_cases hd : isJumpD x.op = true
+    · have hwd := (hwf i x hget).1 hd
+      have hDS := retarget_DS code i x hd hwd
+      have hop : x.op = .jump := by simpa [isJumpD] using hd
+      have hop' : (retarget code i x).op = .jump := by rw [retarget_op, hop]
+      simp only [stepCore, hop, Option.some.injEq] at hmc
+      subst hmc
+      refine ⟨_, by simp only [stepCore, hop', Option.map_some]; rfl, ?_⟩
+      intro w
+      simp only [M.map, M.bind, M.pure, toStep, hDS]
+      have := remove_noops_retarget code i x.DS
+      simp only [Int.ofNat_eq_coe]
+      congr 4
+      omega
+    · have hd' : isJumpD x.op = false := by simpa using hd
+      have he : isJumpE x.op = true := by rcases hj with h1 | h1; exact absurd h1 hd; exact h1
+      have hwe := (hwf i x hget).2 he
+      obtain ⟨hA, hES⟩ := retarget_E code i x hd' he hwe
+      have hret := remove_noops_retarget code i x.ES
+      have hcases : x.op = .jumpIf ∨ x.op = .jumpIfNot ∨ x.op = .jumpIfNil ∨ x.op = .jumpIfNotNil := by
+        simpa [isJumpE, or_assoc] using he
+      rcases hcases with hop | hop | hop | hop <;>
+        (have hop' : (retarget code i x).op = x.op := retarget_op code i x
+         rw [hop] at hop'
+         simp only [stepCore, hop, Option.some.injEq] at hmc
+         subst hmc
+         refine ⟨_, by simp only [stepCore, hop', Option.map_some]; rfl, ?_⟩
+         intro w
+         simp only [M.map, M.bind, M.pure, hA, hES]
+         cases hc : P.truthy (getS P s x.A) <;> cases hc2 : P.isNil (getS P s x.A) <;>
+           simp [toStep, hsucc, Int.ofNat_eq_coe] <;> omega)
+  · -- not a jump: the instruction is unchanged and never produces a jump outcome
+    have hj' : isJumpOp x.op = false := by simpa using hj
+    rw [retarget_nonjump code i x hj']
+    have hnj := stepCore_noJump P x s hj' mc hmc
+    refine ⟨_, by rw [hmc]; rfl, ?_⟩
+    intro w
+    simp only [M.map, M.bind, M.pure]
+    rcases hw : mc w with ⟨(e | o), w'⟩
+    · rfl
+    · cases o with
+      | next s' => simp [toStep, hsucc]
+      | ret v => simp [toStep]
+      | jump s' off => exact absurd rfl (hnj w _ w' hw s' off)
+
+/-- ★ `janet_bytecode_remove_noops` preserves behaviour: whatever the original code computes from pc `pc` (value or error,
+    and the world after all effects, in the same order) the rewritten code computes from `pc_map[pc]`, with the same slots
+    and within the same number of steps.  Jumps are retargeted through `pc_map` exactly as the C arithmetic does. -/
+theorem remove_noops_preserves (code : List Instr) (hwf : JumpsWf code) :
+    ∀ (fuel : Nat) (s : List P.V) (pc : Nat) (w : P.W) (r : Except P.E P.V × P.W),
+      exec P code fuel ⟨s, pc⟩ w = some r → exec P (removeNoopsFull code) fuel ⟨s, pcMap code pc⟩ w = some r := by
+  intro fuel
+  induction fuel with
+  | zero => intro s pc w r h; simp [exec] at h
+  | succ k ih =>
+    intro s pc w r h
+    simp only [exec] at h
+    cases hc : code[pc]? with
+    | none => simp [hc] at h
+    | some x =>
+      have hlt : pc < code.length := by
+        rcases Nat.lt_or_ge pc code.length with h1 | h1
+        · exact h1
+        · rw [List.getElem?_eq_none h1] at hc; cases hc
+      have hx : code[pc]'hlt = x := by
+        have := List.getElem?_eq_getElem hlt
+        rw [this] at hc
+        exact Option.some.inj hc
+      simp only [hc] at h
+      by_cases hn : (x.op != .noop) = true
+      · cases hs : step P x ⟨s, pc⟩ with
+        | none => simp [hs] at h
+        | some m =>
+          simp only [hs] at h
+          obtain ⟨m', hm', hspec⟩ := retarget_step P code hwf pc hlt (by rw [hx]; exact hn) s m (by rw [hx]; exact hs)
+          have hget := removeNoopsFull_get code pc hlt (by rw [hx]; exact hn)
+          simp only [exec, hget, hm']
+          have hw := hspec w
+          rcases hmw : m w with ⟨(e | st), w'⟩
+          · rw [hmw] at h hw; simp only [] at hw; rw [hw]; exact h
+          · cases st with
+            | ret v => rw [hmw] at h hw; simp only [] at hw; rw [hw]; exact h
+            | cont g =>
+              rw [hmw] at h hw
+              simp only [] at hw h
+              rw [hw]
+              exact ih g.slots g.pc w' r h
+      · have hop : x.op = .noop := by simpa using hn
+        have hs : step P x ⟨s, pc⟩ = some (M.pure (.cont ⟨s, pc + 1⟩)) := by simp [step, hop, next]
+        simp only [hs, M.pure] at h
+        have := ih s (pc + 1) w r h
+        have hpm : pcMap code (pc + 1) = pcMap code pc := by
+          rw [pcMap_succ code pc hlt, hx]; simp [hop]
+        rw [hpm] at this
+        exact exec_mono P _ k _ w r this (k + 1) (by omega)
+
+/-- sourcemap rows: the pass copies `sourcemap[j] = sourcemap[i]` with the same `j ← i` as the instructions, so pairing every
+    instruction with its row and filtering keeps each kept instruction next to its own row -/
+theorem remove_noops_sourcemap {Row : Type} (prog : List (Instr × Row)) (i : Nat) (h : i < prog.length)
+    (hn : ((prog[i]'h).1.op != .noop) = true) :
+    (prog.filter (fun p => p.1.op != .noop))[((prog.take i).filter (fun p => p.1.op != .noop)).length]? = some (prog[i]'h) := by
+  have hsplit : prog.filter (fun p => p.1.op != .noop) =
+      (prog.take i).filter (fun p => p.1.op != .noop) ++ (prog.drop i).filter (fun p => p.1.op != .noop) := by
+    rw [← List.filter_append, List.take_append_drop]
+  rw [hsplit, List.getElem?_append_right (Nat.le_refl _)]
   simp only [Nat.sub_self]
   rw [List.drop_eq_getElem_cons h, List.filter_cons]
   simp [hn]
